@@ -62,23 +62,23 @@ __CPROVER_ensures((childRes >= S_RES(h) && childRes <= 15 && h != 0) ==>
                    sf_iter_wf(iter->h, iter->_parentRes, iter->_skipDigit) &&
                    sf_pos(iter->h, iter->_parentRes) == 0));
 
+/* full step contract (used when callers are verified): bit-level facts plus the position arithmetic.
+ * Enforced in two parts: iterStepChild_bits_contract on the real code (job c04.iterStepChild.bits) and the
+ * composition with the rank lemma (job c04.iterStepChild.compose). */
+#define ITERSTEP_ENS_FULL(oh, opr, nh, npr, nskip)                                                        \
+    (((oh) == 0 ==> (nh) == 0) &&                                                                          \
+     /* exhausted exactly when the current iterate was the last descendant */                             \
+     ((oh) != 0 ==> (((nh) == 0) == (sf_pos(oh, opr) == sf_nchild_anc(oh, opr) - 1))) &&                   \
+     /* otherwise: next legal descendant of the same ancestor, one position further */                    \
+     (((oh) != 0 && (nh) != 0) ==>                                                                         \
+      ((npr) == (opr) && sf_same_anc(nh, oh, npr) && (nh) > (oh) && sf_iter_wf(nh, npr, nskip) &&          \
+       sf_pos(nh, npr) == sf_pos(oh, npr) + 1 && sf_pos(nh, npr) < sf_nchild_anc(oh, opr))))
 void iterStepChild_contract(IterCellsChildren *it)
 __CPROVER_requires(__CPROVER_rw_ok(it, sizeof(IterCellsChildren)))
 __CPROVER_requires(sf_iter_wf(it->h, it->_parentRes, it->_skipDigit))
 __CPROVER_assigns(*it)
-__CPROVER_ensures(__CPROVER_old(it->h) == 0 ==> it->h == 0)
-/* exhausted exactly when the current iterate was the last descendant */
-__CPROVER_ensures(__CPROVER_old(it->h) != 0 ==>
-                  ((it->h == 0) == (sf_pos(__CPROVER_old(it->h), __CPROVER_old(it->_parentRes)) ==
-                                    sf_nchild_anc(__CPROVER_old(it->h), __CPROVER_old(it->_parentRes)) - 1)))
-/* otherwise: next legal descendant of the same ancestor, one position further */
-__CPROVER_ensures((__CPROVER_old(it->h) != 0 && it->h != 0) ==>
-                  (it->_parentRes == __CPROVER_old(it->_parentRes) &&
-                   S_RES(it->h) == S_RES(__CPROVER_old(it->h)) &&
-                   sf_same_anc(it->h, __CPROVER_old(it->h), it->_parentRes) &&
-                   it->h > __CPROVER_old(it->h) &&
-                   sf_iter_wf(it->h, it->_parentRes, it->_skipDigit) &&
-                   sf_pos(it->h, it->_parentRes) == sf_pos(__CPROVER_old(it->h), it->_parentRes) + 1));
+__CPROVER_ensures(ITERSTEP_ENS_FULL(__CPROVER_old(it->h), __CPROVER_old(it->_parentRes), it->h, it->_parentRes, it->_skipDigit));
+
 /* the same step, bit-level only (no position arithmetic), for ALL resolutions at once: the result is the
  * least legal descendant above the current one (h3v_w: universally quantified witness), or 0 if none */
 void iterStepChild_bits_contract(IterCellsChildren *it)
@@ -92,10 +92,32 @@ __CPROVER_ensures((__CPROVER_old(it->h) != 0 && it->h != 0) ==>
                    sf_same_anc(it->h, __CPROVER_old(it->h), it->_parentRes) &&
                    it->h > __CPROVER_old(it->h) &&
                    sf_iter_wf(it->h, it->_parentRes, it->_skipDigit)))
+/* closed form of the step: the spec successor (sf_next) of the old iterate, 0 when there is none */
+__CPROVER_ensures(__CPROVER_old(it->h) != 0 ==> it->h == sf_next(__CPROVER_old(it->h), __CPROVER_old(it->_parentRes)))
 /* nothing legal lies strictly between the old and the new iterate (resp. above the old one when exhausted) */
 __CPROVER_ensures((__CPROVER_old(it->h) != 0 &&
                    S_RES(h3v_w) == S_RES(__CPROVER_old(it->h)) &&
                    sf_same_anc(h3v_w, __CPROVER_old(it->h), __CPROVER_old(it->_parentRes)) &&
                    sf_wfdesc(h3v_w, __CPROVER_old(it->_parentRes)) &&
                    h3v_w > __CPROVER_old(it->h)) ==> (it->h != 0 && h3v_w >= it->h));
+/* cellToChildren: h3v_g (index) and h3v_v (value) are universally quantified ghosts, never assigned by library code:
+ * "whenever slot g holds the value v, v is ..." is the same as "slot g is ..." but mentions the array only once */
+extern int64_t h3v_g;
+extern H3Index h3v_v;
+#define C04_VALID_ARGS(h, childRes) ((childRes) >= S_RES(h) && (childRes) <= 15 && (h) != 0)
+H3Error cellToChildren_contract(H3Index h, int childRes, H3Index *children)
+/* the documented buffer: cellToChildrenSize(h, childRes) cells (nothing is required when that call fails) */
+__CPROVER_requires(((childRes) >= S_RES(h) && (childRes) <= 15) ==>
+                   __CPROVER_is_fresh(children, sizeof(H3Index) * sf_nchild(h, childRes)))
+__CPROVER_assigns(C04_VALID_ARGS(h, childRes) : __CPROVER_object_whole(children))
+__CPROVER_ensures(__CPROVER_return_value == S_ERR_SUCCESS)
+/* slot g (any 0 <= g < size) holds the legal descendant of h at childRes whose rank in index order is g */
+__CPROVER_ensures((C04_VALID_ARGS(h, childRes) && 0 <= h3v_g && h3v_g < sf_nchild(h, childRes) && children[h3v_g] == h3v_v) ==>
+                  (S_RES(h3v_v) == childRes &&
+                   sf_same_anc(h3v_v, S_CENTER_CHILD(h, childRes), S_RES(h)) &&
+                   sf_wfdesc(h3v_v, S_RES(h)) &&
+                   sf_pos(h3v_v, S_RES(h)) == h3v_g &&
+                   /* hence: valid parent ==> the slot is a valid cell whose parent at res(h) is h (C01 closure, C04) */
+                   (S_VALID_CELL(h) ==> sf_is_desc(h3v_v, h, childRes)) &&
+                   (h3v_g == 0 ==> h3v_v == S_CENTER_CHILD(h, childRes))));
 #endif
